@@ -2,3 +2,36 @@
 // rule of gfcheck. It is loaded on every run; a rule that does not fire on its
 // control is reported as inert.
 package controls
+
+import (
+	"reflect"
+	"sort"
+)
+
+// OrdMapRangeEscape returns keys in map order (violation: unsorted escape).
+func OrdMapRangeEscape(m map[string]int) []string {
+	var out []string
+	for k := range m {
+		out = append(out, k)
+	}
+	return out
+}
+
+// OrdMapKeysConcat folds MapKeys order into a string (violation).
+func OrdMapKeysConcat(v reflect.Value) string {
+	s := ""
+	for _, k := range v.MapKeys() {
+		s += k.String()
+	}
+	return s
+}
+
+// OrdClean sorts before returning (clean twin).
+func OrdClean(m map[string]int) []string {
+	var out []string
+	for k := range m {
+		out = append(out, k)
+	}
+	sort.Strings(out)
+	return out
+}
